@@ -5,6 +5,7 @@ from typing import Any
 from typing import Callable
 from typing import Optional
 
+from liquid.exceptions import FilterArgumentError
 from liquid.filter import int_arg
 from liquid.filter import liquid_filter
 
@@ -30,4 +31,7 @@ class JSON:
         indent: Optional[object] = None,
     ) -> str:
         indent = int_arg(indent) if indent else None
-        return json.dumps(obj, default=self.default, indent=indent)
+        try:
+            return json.dumps(obj, default=self.default, indent=indent)
+        except OverflowError as err:
+            raise FilterArgumentError(f"json: {err}", token=None) from err
